@@ -1091,6 +1091,12 @@ func runOp(r *lib.Run, op string) {
 	switch f[0] {
 	case "env", "cfghash", "hermetic", "exec", "userenv":
 		runC10(r, op, f)
+	case "e2e08":
+		must(len(f) == 2)
+		var seed uint64
+		_, err := fmt.Sscanf(f[1], "%d", &seed)
+		must(err == nil && fmt.Sprint(seed) == f[1])
+		runE2E08(r, op, seed)
 	case "e2e10":
 		must(len(f) == 2)
 		var seed uint64
@@ -1675,7 +1681,12 @@ func Main(prop string) {
 			}
 		}
 	}
+	// end to end: pre-build functions (the memoised rule hash must be the one computed after they ran)
+	for i := 0; i < r.N(2, 10); i++ {
+		runOp(r, fmt.Sprintf("e2e08 %d", r.Rng.U64()%100000))
+	}
 	for _, op := range []string{
+		"e2e08 x",
 		"rule label=-|70|74 outs=62,61",            // outs not sorted
 		"rule label=-|70|74 srcs=61,61",            // duplicate source
 		"rule label=-|70|74 env=61:62,61:63",       // duplicate key
